@@ -109,7 +109,7 @@ var props = []*core.Property{
 		technique: "typestate (field store before first token call); finite-domain tabulation; dominance rules",
 		expl:      "decides the label plumbing around the x/net tokenizer and encoding/xml",
 		notCovered: []string{"the WHATWG prescan as implemented by x/net/html", "quoting / whitespace variants inside the XML declaration"},
-		rules:      []*core.Rule{ruleSnifferMap, ruleDecoderTypestate, ruleLowerCase, ruleHTMLOrder}}),
+		rules:      []*core.Rule{ruleSnifferMap, ruleDecoderTypestate, ruleLowerCase, ruleHTMLOrder, ruleParams}}),
 	mk(pd{id: "C13", level: "other",
 		levelText: "Line cutting agrees with the JSON truncation table (same order types); both detectors pass their own (header, limit) through it first; NDJSON lines are judged by the parsed length; thresholds tabulated (lines >= 2 and containers >= 1; fields >= 2 and records >= 2); csv reader: FieldsPerRecord untouched, detector's delimiter, EOF ends, any other error rejects.",
 		technique: "finite-domain tabulation; path-sensitive error typestate; field-store inventory on the csv reader",
